@@ -426,8 +426,8 @@ def check_hloc(case):
 
 
 SUBS = [
-    Sub('views', view_cases(), check_views, quick=1200, thorough=32000,
+    Sub('views', view_cases(), check_views, quick=4800, thorough=32000,
         rule='all views of an IndexHierarchy (after any GO history) describe the model tuple list'),
-    Sub('hloc', hloc_cases(), check_hloc, quick=2500, thorough=64000,
+    Sub('hloc', hloc_cases(), check_hloc, quick=10000, thorough=64000,
         rule='per-level selection vs recursive tuple-list reference; Series/Frame rows by HLoc'),
 ]
